@@ -10,7 +10,7 @@ from symnp import core
 from symnp.hapi import PreconditionFailed
 
 STUB_DOC = [
-    'D(l,r)[i] >= 0 replaces linear_fit.shortest_distance_points / perpendicular_distance_points on points[l..r] (no other assumption: '
+    'D(l,r)[i] >= 0 replaces the requested one of linear_fit.shortest_distance_points / perpendicular_distance_points on points[l..r], the other one gets its own free values (no other assumption: '
     'end points are NOT assumed to be at distance 0, which covers float64 rounding noise)',
     'cost(l,r) free real replaces rdp.compute_cost_coef o linear_fit.linear_fit_points',
     'score(l,r) >= 0 replaces linear_fit.linear_fit_residuals_points (Order.segment); order_triangle / order_area are real code over D',
@@ -45,6 +45,12 @@ class Stubs:
         l, r = self.rng(pt)
         return self.h.np.array([self.d(l, r, i) for i in range(l, r + 1)])
 
+    def dist_other(self, pt, a=None, b=None):
+        """the distance function that was NOT requested: its own free values, so that a driver using the wrong one is visible"""
+        self._tick('dist')
+        l, r = self.rng(pt)
+        return self.h.np.array([Fr(0) if (self.k1 and i in (l, r)) else self.h.real('dx_%d_%d_%d' % (l, r, i), nn=True) for i in range(l, r + 1)])
+
     def cost(self, l, r):
         return self.h.real('c_%d_%d' % (l, r))
 
@@ -73,7 +79,7 @@ class Stubs:
 
 
 @contextlib.contextmanager
-def patched(h, st, stub_global=True, stub_cost=True, stub_score=True):
+def patched(h, st, stub_global=True, stub_cost=True, stub_score=True, requested='shortest'):
     """install the stubs into the shim-loaded modules for the duration of one path"""
     if not h.sym:
         raise PreconditionFailed('the kernel-stubbed (abstract) layer has no concrete counterpart')
@@ -83,8 +89,8 @@ def patched(h, st, stub_global=True, stub_cost=True, stub_score=True):
              (lf, 'linear_fit_residuals_points', lf.linear_fit_residuals_points), (lf, 'linear_fit_points', lf.linear_fit_points),
              (rdp, 'compute_cost_coef', rdp.compute_cost_coef), (ev, 'compute_global_cost', ev.compute_global_cost)]
     try:
-        lf.shortest_distance_points = st.dist
-        lf.perpendicular_distance_points = st.dist
+        lf.shortest_distance_points = st.dist if requested == 'shortest' else st.dist_other
+        lf.perpendicular_distance_points = st.dist if requested == 'perpendicular' else st.dist_other
         if stub_score:
             lf.linear_fit_residuals_points = st.residuals
         if stub_cost:
